@@ -152,5 +152,12 @@ func RandInit(r *rand.Rand, table, op int) *InitSpec {
 		cells = append(cells, [2]int{(pc + i) & 0xffff, b})
 	}
 	is.Cells = dedupe(cells)
+	// now and then a request is pending: refused (the instruction runs with it pending) or accepted
+	if r.Intn(12) == 0 {
+		is.Pend = [][]int{{1}, {1, 0xff}, {1, r.Intn(256)}, {0}, {1, 0xcd, 0x34, 0x12}}[r.Intn(5)]
+		if r.Intn(3) != 0 {
+			is.R[24] = 0 // IFF1 clear: a maskable request is refused and stays pending
+		}
+	}
 	return is
 }
